@@ -105,18 +105,15 @@ def eval_types(case):
         if toks[0] % 7 != case:
             continue
         s = TOK[toks[0]] + TOK[toks[1]]
-        o = outcome(s, {})
-        variants = [('stream', io.StringIO(s))]
-        try:
-            variants.append(('bytes', s.encode('ascii')))
-            variants.append(('bytearray', bytearray(s.encode('ascii'))))
-        except UnicodeEncodeError:
-            pass
-        for name, v in variants:
-            n += 1
-            o2 = outcome(v, {})
-            if o2 != o:
-                viols.append({'kind': 'input-types-differ', 'text': s, 'input': name, 'str_outcome': o, 'outcome': o2})
+        for kw in ({}, {'fuzzy': True}):
+            o = outcome(s, kw)
+            # bytes are the UTF-8 encoding of the text (non-ASCII tokens included)
+            variants = [('stream', io.StringIO(s)), ('bytes', s.encode('utf-8')), ('bytearray', bytearray(s.encode('utf-8')))]
+            for name, v in variants:
+                n += 1
+                o2 = outcome(v, kw)
+                if o2 != o:
+                    viols.append({'kind': 'input-types-differ', 'text': s, 'input': name, 'options': kw, 'str_outcome': o, 'outcome': o2})
     if case == 0:
         for x in (None, 5, 5.5, ['2003'], D.datetime(2003, 1, 1), object()):
             n += 1
